@@ -199,7 +199,9 @@ def r2(ctx):
                   if not bad_sections else "root state of a table accessed without both write locks held",
                   key="C06.R2:%s:section" % fname)
         for f, why in keep.items():
-            ctx.note("%s: field %s is deliberately not exchanged: %s" % (fname, f, why))
+            wr = [i for i in fn.all_insts() if i.op == "store" and vf.store_field(i) == "%s.%s" % (struct, f)]
+            ctx.check(not wr, "C06.R2", "%s:%s-stays" % (fname, f), wr[0].loc() if wr else "%s:%d" % (fn.relfile, fn.line),
+                      "field %s is not exchanged: %s" % (f, why), key="C06.R2:%s:%s:kept" % (fname, f))
     ctx.floor("C06.R2", sum(1 for o in ctx.obls if o["rule"] == "C06.R2"), 6)
 
 
